@@ -90,6 +90,7 @@ fn selfcheck(runs: u64) -> i32 {
     for prop in engines {
         let mut reference: Option<std::collections::BTreeMap<u64, u64>> = None;
         let mut executions = 0;
+        let bad_before = bad;
         for (block, workers) in [(runs, 1usize), ((runs / 8).max(1), 4), (50, 16)] {
             for _rep in 0..2 {
                 let plan = coord::Plan { prop, tier: "quick".into(), seed, runs, block, workers };
@@ -115,7 +116,7 @@ fn selfcheck(runs: u64) -> i32 {
                 }
             }
         }
-        println!("{prop}: {} run indices x {executions} executions in fresh processes: {}", reference.map(|r| r.len()).unwrap_or(0), if bad == 0 { "identical digests" } else { "DIFFERENCES" });
+        println!("{prop}: {} run indices x {executions} executions in fresh processes: {}", reference.map(|r| r.len()).unwrap_or(0), if bad == bad_before { "identical digests" } else { "DIFFERENCES" });
     }
     if bad == 0 {
         0
@@ -130,6 +131,7 @@ fn real_main() -> i32 {
     log::set_max_level(log::LevelFilter::Off);
     // panics inside the code under test are caught and classified; keep stderr quiet
     std::panic::set_hook(Box::new(|_| {}));
+    gen::load_dictionary();
     match args.first().map(|s| s.as_str()) {
         Some("check") if args.len() >= 3 => {
             let tier = Tier::parse(&args[2]);
